@@ -504,12 +504,16 @@ func (d *Doc) legalRuns() [][2]int {
 // un-cut single-file project and the cut multi-file project.
 func cutProject(d *Doc, r *rng, baseDir string, maxDepth int) (single, multi Project, ncuts int) {
 	text := d.Render()
+	return cutText(text, d.legalRuns(), r, baseDir, maxDepth)
+}
+
+// cutText cuts a text into files at the given legal runs (line ranges).
+func cutText(text string, runs [][2]int, r *rng, baseDir string, maxDepth int) (single, multi Project, ncuts int) {
 	lines := strings.Split(strings.TrimSuffix(text, "\n"), "\n")
+	endsWithNL := strings.HasSuffix(text, "\n")
 	root := filepath.Join(baseDir, "main.jst")
 	single = Project{Root: root, Cwd: "/sim/cwd"}
 	single.set(root, []byte(text))
-
-	runs := d.legalRuns()
 	// choose a laminar (nested or disjoint) family of runs
 	var chosen [][2]int
 	want := 1 + r.n(5)
@@ -610,6 +614,10 @@ func cutProject(d *Doc, r *rng, baseDir string, maxDepth int) (single, multi Pro
 		}
 		return sb.String()
 	}
-	multi.set(root, []byte(emit(0, len(lines), tops, baseDir)))
+	rootText := emit(0, len(lines), tops, baseDir)
+	if !endsWithNL {
+		rootText = strings.TrimSuffix(rootText, "\n")
+	}
+	multi.set(root, []byte(rootText))
 	return single, multi, ncuts
 }
